@@ -71,6 +71,11 @@ fn verif_error(kind: ErrorKind) -> (e: Error) ensures e.kind == kind { Error { k
 //@const file=yarel/src/object.rs name=STACK_MAX
 // the value stack (stack.rs by contract; proved for both build configurations by the Kani unit `stack`)
 pub struct StackS { pub ghost view: Seq<Value> }
+impl StackS {
+    // stack.rs truncate (Kani unit `stack`): keeps the first `len` slots
+    #[verifier::external_body]
+    fn truncate(&mut self, len: usize) requires len <= old(self).view.len() ensures final(self).view == old(self).view.take(len as int) { unimplemented!() }
+}
 
 //@struct file=yarel/src/object.rs name=CallFrame map "*const u8" => "usize"
 //@struct file=yarel/src/object.rs name=ObjFiber keepfields=caller,stack,frames,handling_exception,call_arity map "Stack<Value, STACK_MAX>" => "StackS"
@@ -83,6 +88,12 @@ impl ObjFiber {
     pub open spec fn new_fiber(&self) -> bool { self.frames@.len() == 1 && Self::at_start(self.frames@) }
     #[verifier::external_body]
     fn is_new(&self) -> (r: bool) ensures r == self.new_fiber() { unimplemented!() }
+    // object.rs close_upvalues_for_frame: closes the captured variables of the innermost frame (unit upvalues); frames,
+    // value stack, caller link are not touched
+    #[verifier::external_body]
+    fn close_upvalues_for_frame(&mut self) requires old(self).frames@.len() > 0 ensures *final(self) == *old(self) { unimplemented!() }
+    #[verifier::external_body]
+    fn current_frame(&self) -> (r: Option<&CallFrame>) ensures self.frames@.len() > 0 ==> (r matches Some(f) && *f == self.frames@.last()), self.frames@.len() == 0 ==> r is None { unimplemented!() }
     #[verifier::external_body]
     fn current_frame_mut(&mut self) -> (r: Option<&mut CallFrame>)
         requires old(self).frames@.len() > 0
@@ -121,6 +132,7 @@ impl Vm {
     fn active_fiber_mut(&mut self) -> (r: &mut ObjFiber)
         requires old(self).fiber is Some, old(self).heap.dom().contains(old(self).active_id())
         ensures *r == old(self).active(), final(self).heap == old(self).heap.insert(old(self).active_id(), *final(r)), old(self).handles_same(final(self)),
+            forall|i: int| #![trigger old(self).heap.dom().contains(i)] old(self).heap.dom().contains(i) && i != old(self).active_id() ==> final(self).heap.dom().contains(i) && final(self).heap[i] == old(self).heap[i],
     { unimplemented!() }
     // `current.as_mut().unwrap().borrow_mut().caller = None` on the fiber that is being left
     #[verifier::external_body]
@@ -136,18 +148,21 @@ impl Vm {
         requires old(self).fiber is Some, old(self).heap.dom().contains(old(self).active_id()), old(self).active().stack.view.len() > 0
         ensures old(self).handles_same(final(self)), r == old(self).active().stack.view.last(),
             final(self).heap == old(self).heap.insert(old(self).active_id(), ObjFiber { caller: old(self).active().caller, stack: StackS { view: old(self).active().stack.view.drop_last() }, frames: old(self).active().frames, handling_exception: old(self).active().handling_exception, call_arity: old(self).active().call_arity }),
+            forall|i: int| #![trigger old(self).heap.dom().contains(i)] old(self).heap.dom().contains(i) && i != old(self).active_id() ==> final(self).heap.dom().contains(i) && final(self).heap[i] == old(self).heap[i],
     { unimplemented!() }
     #[verifier::external_body]
     fn push(&mut self, value: Value)
         requires old(self).fiber is Some, old(self).heap.dom().contains(old(self).active_id()), old(self).active().stack.view.len() < STACK_MAX
         ensures old(self).handles_same(final(self)),
             final(self).heap == old(self).heap.insert(old(self).active_id(), ObjFiber { caller: old(self).active().caller, stack: StackS { view: old(self).active().stack.view.push(value) }, frames: old(self).active().frames, handling_exception: old(self).active().handling_exception, call_arity: old(self).active().call_arity }),
+            forall|i: int| #![trigger old(self).heap.dom().contains(i)] old(self).heap.dom().contains(i) && i != old(self).active_id() ==> final(self).heap.dom().contains(i) && final(self).heap[i] == old(self).heap[i],
     { unimplemented!() }
     #[verifier::external_body]
     fn poke(&mut self, depth: usize, value: Value)
         requires old(self).fiber is Some, old(self).heap.dom().contains(old(self).active_id()), depth < old(self).active().stack.view.len()
         ensures old(self).handles_same(final(self)),
             final(self).heap == old(self).heap.insert(old(self).active_id(), ObjFiber { caller: old(self).active().caller, stack: StackS { view: old(self).active().stack.view.update(old(self).active().stack.view.len() - 1 - depth, value) }, frames: old(self).active().frames, handling_exception: old(self).active().handling_exception, call_arity: old(self).active().call_arity }),
+            forall|i: int| #![trigger old(self).heap.dom().contains(i)] old(self).heap.dom().contains(i) && i != old(self).active_id() ==> final(self).heap.dom().contains(i) && final(self).heap[i] == old(self).heap[i],
     { unimplemented!() }
     // ip := saved ip of the active fiber's current frame (plus active chunk / module, not modelled)
     #[verifier::external_body]
@@ -206,7 +221,7 @@ impl Vm {
     //@  ensures r is Ok ==> final(self).wf() && final(self).heap.dom().contains(final(self).active_id()) && final(self).active().stack.view.len() > 0
     //@  ensures @caller_continues_where_it_called r is Ok ==> final(self).active().frames == old(self).heap[old(self).active().caller->0.id()].frames && final(self).ip == final(self).active().frames@.last().ip && final(self).active().caller == old(self).heap[old(self).active().caller->0.id()].caller
     //@  ensures @yielding_fiber_suspended r is Ok ==> final(self).heap[old(self).active_id()].caller is None && final(self).heap[old(self).active_id()].stack.view == (if arg is Some { old(self).active().stack.view.drop_last() } else { old(self).active().stack.view }) && (old(self).active().frames@.len() > 0 ==> final(self).heap[old(self).active_id()].frames@.last().ip == old(self).ip && final(self).heap[old(self).active_id()].frames@.drop_last() == old(self).active().frames@.drop_last()) && (old(self).active().frames@.len() == 0 ==> final(self).heap[old(self).active_id()].frames == old(self).active().frames)
-    //@  ensures @other_fibers_untouched r is Ok ==> forall|i: int| old(self).heap.dom().contains(i) && i != old(self).active_id() && i != old(self).active().caller->0.id() ==> final(self).heap.dom().contains(i) && final(self).heap[i] == old(self).heap[i]
+    //@  ensures @other_fibers_untouched r is Ok ==> forall|i: int| #![trigger old(self).heap.dom().contains(i)] old(self).heap.dom().contains(i) && i != old(self).active_id() && i != old(self).active().caller->0.id() ==> final(self).heap.dom().contains(i) && final(self).heap[i] == old(self).heap[i]
     //@  ensures @exception_in_flight_stays_with_its_fiber r is Ok ==> final(self).handling_exception == old(self).heap[old(self).active().caller->0.id()].handling_exception && final(self).heap[old(self).active_id()].handling_exception == old(self).handling_exception
     //@end
     #[verifier::external_body]
@@ -214,6 +229,21 @@ impl Vm {
         requires self.fiber is Some, self.heap.dom().contains(self.active_id()), depth < self.active().stack.view.len()
         ensures r == self.active().stack.view[self.active().stack.view.len() - 1 - depth]
     { unimplemented!() }
+
+    // Return. Inside a fiber: the innermost frame goes, its slots (callee, arguments, locals) are replaced by the
+    // result, the caller's frame continues at its saved address. At the END of a fiber body that was called: the
+    // calling fiber becomes active again and the body's return value becomes the result of its `call` (the top slot of
+    // ITS stack); the finished fiber keeps no frame and no caller. At the end of the outermost fiber the run ends.
+    //@fn file=yarel/src/vm.rs path=Vm::return_impl ret=r props=C09,C05
+    //@  requires old(self).wf(), old(self).fiber is Some, old(self).active().frames@.len() > 0, old(self).active().stack.view.len() > old(self).active().frames@.last().slot_base, old(self).active().stack.view.len() <= STACK_MAX
+    //@  requires old(self).active().frames@.len() == 1 && old(self).active().caller is None ==> old(self).active().stack.view.len() >= 2
+    //@  requires old(self).active().caller matches Some(c) ==> old(self).heap.dom().contains(c.id()) && c.id() != old(self).active_id() && old(self).heap[c.id()].stack.view.len() > 0 && old(self).heap[c.id()].frames@.len() > 0
+    //@  ensures @a_call_is_replaced_by_its_result old(self).active().frames@.len() > 1 ==> r == Ok::<Option<Value>, Error>(None) && final(self).fiber == old(self).fiber && final(self).active().stack.view == old(self).active().stack.view.take(old(self).active().frames@.last().slot_base as int).push(old(self).active().stack.view.last()) && final(self).active().frames@ == old(self).active().frames@.drop_last() && final(self).ip == old(self).active().frames@[old(self).active().frames@.len() - 2].ip
+    //@  ensures @the_bodys_return_value_becomes_the_result_of_call (old(self).active().frames@.len() == 1 && old(self).active().caller is Some) ==> r == Ok::<Option<Value>, Error>(None) && (final(self).fiber matches Some(x) && x.id() == old(self).active().caller->0.id()) && final(self).active().stack.view == old(self).heap[old(self).active().caller->0.id()].stack.view.update(old(self).heap[old(self).active().caller->0.id()].stack.view.len() - 1, old(self).active().stack.view.last())
+    //@  ensures @a_finished_fiber_keeps_no_frame_and_no_caller (old(self).active().frames@.len() == 1 && old(self).active().caller is Some) ==> final(self).heap[old(self).active_id()].frames@.len() == 0 && final(self).heap[old(self).active_id()].caller is None && final(self).active().frames == old(self).heap[old(self).active().caller->0.id()].frames
+    //@  ensures @the_end_of_the_outermost_fiber_ends_the_run (old(self).active().frames@.len() == 1 && old(self).active().caller is None) ==> (r matches Ok(Some(_))) && final(self).fiber == old(self).fiber && final(self).active().frames@.len() == 0
+    //@  ensures @other_fibers_untouched forall|i: int| old(self).heap.dom().contains(i) && i != old(self).active_id() && !(old(self).active().caller matches Some(c) && i == c.id()) ==> final(self).heap.dom().contains(i) && final(self).heap[i] == old(self).heap[i]
+    //@end
 }
 
 //@fn file=yarel/src/core.rs path=check_num_args ret=r
